@@ -720,3 +720,128 @@ func lazyDirect(z any) bool {
 	}
 	return false
 }
+
+// GenPolicyObject builds an object that CAN reject unknown keys (strict, or passthrough with a
+// catch-all schema) and HAS fields that may be absent (optional members, or Partial): the region where
+// the unknown-key scan and the absent-field rule interact.
+func GenPolicyObject(r *hx.Rng, d int) *Sch {
+	s := &Sch{Kind: "object", Rest: -1, KeyM: -1, ValM: -1, Catchall: -1, GoT: "mapSA"}
+	opt := func() *Sch {
+		switch r.Intn(3) {
+		case 0:
+			return leaf("String().Optional()", gozod.String().Optional(), "", []any{"o", nil}, nil, []any{1})
+		case 1:
+			return leaf("String().Min(2).Optional()", gozod.String().Min(2).Optional(), "", []any{"ok", nil}, []any{"x"}, []any{5})
+		}
+		return leaf("Int().Min(0).Optional()", gozod.Int().Min(0).Optional(), "", []any{3, nil}, []any{-1}, []any{"3"})
+	}
+	req := func() *Sch {
+		if d > 0 && r.Chance(30) {
+			return Gen(r, d, "")
+		}
+		return hx.Pick(r, []*Sch{Leaves("str")[0], Leaves("int")[0], Leaves("str")[4]})
+	}
+	names := []string{"name", "nick", "age", "tag"}
+	n := 2 + r.Intn(3)
+	shape := core.ObjectSchema{}
+	for i := range n {
+		var m *Sch
+		if i == 0 || r.Chance(35) {
+			m = req()
+		} else {
+			m = opt()
+		}
+		s.Fields = append(s.Fields, names[i])
+		s.Members = append(s.Members, m)
+		shape[names[i]] = m.Z
+	}
+	z := types.Object(shape)
+	name := "Object{" + fieldNames(s) + "}"
+	switch r.Intn(4) {
+	case 0, 1:
+		s.Mode = "strict"
+		z = z.Strict()
+		name += ".Strict()"
+	case 2:
+		s.Mode = "passthrough"
+		z = z.Passthrough()
+		name += ".Passthrough()"
+	default:
+		s.Mode = "strip"
+	}
+	if s.Mode != "strict" {
+		c := hx.Pick(r, []*Sch{Leaves("int")[0], Leaves("str")[0], Leaves("")[len(Leaves("str"))+len(Leaves("int"))+5]}) // Int().Min(0) | String().Min(2) | Never()
+		s.Members = append(s.Members, c)
+		s.Catchall = len(s.Members) - 1
+		z = z.WithCatchall(c.Z)
+		name += ".WithCatchall(" + c.Name + ")"
+	}
+	switch r.Intn(4) {
+	case 0:
+		s.Partial = true
+		z = z.Partial()
+		name += ".Partial()"
+	case 1:
+		s.Partial = true
+		z = z.Partial([]string{names[0]})
+		s.PartEx = []string{}
+		for _, f := range s.Fields {
+			if f != names[0] {
+				s.PartEx = append(s.PartEx, f)
+			}
+		}
+		name += fmt.Sprintf(".Partial([%q])", names[0])
+	}
+	s.Z = z
+	s.Name = name
+	return s
+}
+
+// PolicyInputs drops k fields that may be absent from a valid instance and adds j ≤ k (and j = k+1)
+// unknown keys, with values the catch-all accepts and values it rejects.
+func (s *Sch) PolicyInputs(r *hx.Rng, v map[string]any) []map[string]any {
+	var droppable []string
+	for i, f := range s.Fields {
+		o, _ := optFlags(s.Members[i].Z)
+		inEx := false
+		for _, e := range s.PartEx {
+			inEx = inEx || e == f
+		}
+		if o || (s.Partial && (s.PartEx == nil || !inEx)) {
+			droppable = append(droppable, f)
+		}
+	}
+	unknownVals := []any{1, "zz", -1, "x", nil}
+	if s.Catchall >= 0 {
+		c := s.Members[s.Catchall]
+		unknownVals = append(append([]any{}, c.Valids...), c.InvalidsT...)
+		unknownVals = append(unknownVals, c.InvalidsAny...)
+		if len(unknownVals) == 0 {
+			unknownVals = []any{1}
+		}
+	}
+	unknownNames := []string{"nikc", "u2", "u3", "u4", "u5"}
+	var out []map[string]any
+	for k := 0; k <= len(droppable); k++ {
+		for j := 0; j <= k+1 && j <= len(unknownNames); j++ {
+			if k == 0 && j == 0 {
+				continue
+			}
+			c := map[string]any{}
+			for a, b := range v {
+				c[a] = b
+			}
+			// make sure the droppable fields we keep are present, the others absent
+			for i, f := range droppable {
+				if i < k {
+					delete(c, f)
+				}
+			}
+			for x := 0; x < j; x++ {
+				c[unknownNames[x]] = hx.Pick(r, unknownVals)
+			}
+			out = append(out, c)
+		}
+	}
+	return out
+}
